@@ -60,6 +60,9 @@ let rec parse_op (s : string) : op =
   | ["eqhi"; ch] -> OEqualsChI (num ch)
   | ["swhi"; ch] -> OStartsChI (num ch)
   | ["ewhi"; ch] -> OEndsChI (num ch)
+  | ["wiw"; i; a; sep] -> OWithWord (num i, sarg a, bytes_of_hex sep)
+  | ["waw"; a; sep] -> OWithWord (nolimit, sarg a, bytes_of_hex sep)
+  | ["wpw"; a; sep] -> OWithWord (N0, sarg a, bytes_of_hex sep)
   | ["wsfh"; ch] -> OWithSuffixCh (num ch)
   | ["wpfh"; ch] -> OWithPrefixCh (num ch)
   | ["wosfi"; a; m] -> OWithoutSuffixSI (sarg a, num m)
